@@ -74,7 +74,8 @@ TESTED_NOT_PROVED = [
     "preparation in the default mode for templates that write hydrogen changes with explicit H atoms: modelled and compared on every run, "
     "not covered by the invariance theorems (new hydrogen ids and h_pairs ids are allocated in numeric order: results are isomorphic, "
     "not renumbered); hydrogen-free templates in the default mode ARE covered",
-    "state: the implementation's lazily cached fields, shared objects, module-level caches — histories in a fresh interpreter (both orders, "
+    "the clause 'unchanged when the call is repeated' (C05_repeat_trivial is congruence of a pure function, not coverage): the "
+    "implementation's lazily cached fields, shared objects, module-level caches — histories in a fresh interpreter (both orders, "
     "input forms, result-neutral options, repeated reads, in-place renumbering of a shared template, emptied results); the model is a pure "
     "function",
     "the partial-matching option: the raw and kept matches of the PartialMatcher engine are modelled, compared on every run and proved "
@@ -94,7 +95,9 @@ LEVEL_TEXT = ("Machine-checked proof (Coq) over an executable model of the whole
               "its_list in implicit-hydrogen mode and, for hydrogen-free templates, in the default configuration (where the _explicit_h stage "
               "is shown to be the identity); for the exhaustive strategy with no premise about the cap at all (a capped search answers with "
               "everything or nothing, never a truncated list, and whether it is capped does not depend on the writing); the pre-filter guard "
-              "only empties results and its decision does not depend on the writing either; (3) component-aware "
+              "only empties results and its decision does not depend on the writing either; the result set does not depend on the order in "
+              "which the matcher lists its matches (VF2 is instantiated by the verified enumerator; the pruning keeps the first match of "
+              "a class, any other listing gives the same glued graphs); (3) component-aware "
               "matches and results are exhaustive matches / results when neither search is capped, BACKTRACK returns the COMPONENT result "
               "whenever that is non-empty. Refuted with witnesses (code kept, known findings): BACKTRACK = COMPONENT on the explicit-hydrogen "
               "path; COMPONENT within EXHAUSTIVE when a non-default cap empties the exhaustive search only; invariance under re-ordering for "
